@@ -17,6 +17,11 @@ fn run_focus(cfg: &Cfg, focus: &'static str, level: &str, rule: &str, assumption
     // miners exactly as created, alone in the world
     let ha = HistCfg { variant: Variant::AsCreated, nops: tier.pick(60, 120), dense: false, min_power: 4096, fault_prob, enumerate_faults, tail_days: 0 };
     agg.run_parallel("miners-as-created", tier.pick(12, 300), budget, |i, rng| history(i, rng, &ha, focus));
+    if focus == "C05" || focus == "C04" || focus == "C15" || focus == "C02" {
+        // fault time-outs: few ops, then 45 days of chain time with whatever is faulty left faulty
+        let hf = HistCfg { variant: Variant::WithWhale, nops: tier.pick(40, 60), dense: false, min_power: 4096, fault_prob, enumerate_faults: false, tail_days: 45 };
+        agg.run_parallel("miners-fault-timeout", tier.pick(8, 150), budget, |i, rng| history(i, rng, &hf, focus));
+    }
     if focus == "C14" {
         // whole vesting schedules: few ops, then more than 180 days of chain time
         let hv = HistCfg { variant: Variant::WithWhale, nops: tier.pick(30, 50), dense: false, min_power: 4096, fault_prob, enumerate_faults, tail_days: 190 };
